@@ -19,6 +19,7 @@ type SolverCfg struct {
 	WorkDir string
 	Workers int
 	KeepQueries bool
+	Phase1  bool
 }
 
 func (e *Engine) queryText(o *Obligation, axioms []axFact, seed int, solver string) string {
@@ -94,6 +95,21 @@ func firstLine(s string) string {
 }
 
 func (e *Engine) solveOne(o *Obligation, axioms []axFact, cfg *SolverCfg, idx int) {
+	if cfg.Phase1 && !o.Cover {
+		// cheap first attempt with one solver; the full race only for what it does not decide
+		c1 := *cfg
+		c1.Phase1 = false
+		c1.Names = []string{"z3-new"}
+		c1.Timeout = 3 * time.Second
+		e.solveOne(o, axioms, &c1, idx)
+		if o.Status == "unsat" {
+			return
+		}
+		c2 := *cfg
+		c2.Phase1 = false
+		e.solveOne(o, axioms, &c2, idx)
+		return
+	}
 	names := cfg.Names
 	timeout := cfg.Timeout
 	if o.Cover {
